@@ -125,7 +125,7 @@ class C06(core.Check):
         'shadow:local-name-in-2-regions', 'shadow:local-name-in-2-files', 'shadow:file-label-in-2-files',
         'illegal:cross-region-ref', 'illegal:cross-file-ref', 'illegal:ref-after-org', 'illegal:ref-after-memzone',
         'illegal:undefined', 'illegal:dup-global', 'illegal:dup-file', 'illegal:dup-local', 'illegal:orphan-local',
-        'illegal:register-name', 'illegal:keyword-name', 'illegal:dup-global-across-files', 'const-between-def-and-use',
+        'illegal:register-name', 'illegal:keyword-name', 'illegal:dup-global-across-files', 'illegal:dup-same-value', 'const-between-def-and-use',
         'files:1', 'files:2', 'files:3+', 'expect:ACCEPT', 'expect:REJECT', 'ref:forward', 'ref:backward']}
 
     def build(self, rng, illegal):
@@ -390,6 +390,37 @@ class C06(core.Check):
             files[f] += [{'k': 'label', 'name': 'dl_host'}, {'k': 'marker', 'v': 250}, {'k': 'label', 'name': '.dd'},
                          {'k': 'marker', 'v': 251}, {'k': 'label', 'name': '.dd'}, {'k': 'marker', 'v': 252}]
             return True
+        if kind == 'dup-same-value':
+            # a second definition that carries the very value of the first is still a second definition
+            r = rng.randrange(5)
+            if r == 0:
+                scope = rng.choice(['dsv_k', '_dsv_k'])
+                files[f] += [{'k': 'const', 'name': scope, 'val': 4}, {'k': 'marker', 'v': 250}, {'k': 'const', 'name': scope, 'val': 4}]
+                return True
+            if r == 1:
+                # the same label on two consecutive lines (no bytes between them)
+                for g in fnames:
+                    L2 = files[g]
+                    for i, it in enumerate(L2):
+                        if it['k'] == 'label':
+                            L2[i + 1:i + 1] = [{'k': 'label', 'name': it['name']}]
+                            return True
+                return False
+            if r == 2:
+                nm = rng.choice(['dsv_a', '_dsv_a'])
+                a = 0x7A0 + rng.randrange(0, 16)
+                files[f] += [{'k': 'org', 'addr': a, 'zone_name': None}, {'k': 'label', 'name': nm},
+                             {'k': 'org', 'addr': a, 'zone_name': None}, {'k': 'label', 'name': nm}, {'k': 'marker', 'v': 250}]
+                return True
+            if r == 3:
+                # a label and a constant sharing name and value
+                a = 0x7B0 + rng.randrange(0, 16)
+                files[f] += [{'k': 'org', 'addr': a, 'zone_name': None}, {'k': 'label', 'name': 'dsv_lc'}, {'k': 'marker', 'v': 250},
+                             {'k': 'const', 'name': 'dsv_lc', 'val': a}]
+                return True
+            files[f] += [{'k': 'label', 'name': 'dsv_host'}, {'k': 'marker', 'v': 250}, {'k': 'label', 'name': '.same'},
+                         {'k': 'label', 'name': '.same'}, {'k': 'marker', 'v': 251}]
+            return True
         if kind == 'orphan-local':
             r = rng.random()
             if r < 0.4:
@@ -416,7 +447,7 @@ class C06(core.Check):
         return False
 
     ILLEGAL = ['cross-region-ref', 'cross-file-ref', 'ref-after-org', 'ref-after-memzone', 'undefined', 'dup-global',
-               'dup-global-across-files', 'dup-file', 'dup-local', 'orphan-local', 'register-name', 'keyword-name']
+               'dup-global-across-files', 'dup-file', 'dup-local', 'orphan-local', 'register-name', 'keyword-name', 'dup-same-value']
 
     def cases(self, tier, seed):
         n_pre = 420
